@@ -60,9 +60,11 @@ def stepDB (db : DB) (note : Bool) (toks : List String) : DB × String :=
   | "upd" :: who :: label :: rest =>
     let (db', o) := Defra.Acp.step db (.update (whoOf who) label (extractStr (" ".intercalate rest) "name"))
     (db', showOutcome o)
-  | ["recreate", _, _] =>
+  | ["recreate", _, label] =>
     -- a create that addresses an existing document fails for every requester and changes nothing
-    (db, "error")
+    match Defra.Acp.find db label with
+    | some d => let (db', o) := Defra.Acp.step db (.create d); (db', showOutcome o)
+    | none => (db, "error")
   | ["del", who, label] =>
     let (db', o) := Defra.Acp.step db (.delete (whoOf who) label)
     (db', showOutcome o)
